@@ -10,12 +10,11 @@
                                    Cartesian position (Props/C01_assembled.v C01_mixed_unfold, C01_index_unfold)
    tsum sph T L q f                sum_{c<L} T[q][c] . f c  if sph, f q otherwise: T_s applied to one index
    to_cart s                       s with coord_type Cartesian
-   STILL PARTIAL in C09: the four-index class.  C09_block4_index1_partial does not extend to indices 2-4 by the
-   same pattern: index 1 is the OUTERMOST stage (block4 = axis_tr_1 (map (map axis_tr_2) (...))), so moving
-   T_s2 out through the index-1 stage needs that the per-axis maps commute, i.e. additivity and
-   scalar-compatibility laws that [module_laws] does not contain; the eight-fold fill (C09_four_mix_statement)
-   is likewise open (checked by the labelled-integer correspondence).  The convention-permutation statement
-   C09_convention_output_rows_partial is unchanged. *)
+   The four-index class is in Props/C09_block4.v: C09_block4_index1_partial does not extend to indices 2-4 as an
+   equation between whole blocks (index 1 is the OUTERMOST stage, moving T_s2 out through it needs additivity
+   laws that [module_laws] does not contain), but stated ENTRY BY ENTRY it needs no law at all and is proved
+   there for all four indices, with the assembled corollaries under the eight-fold symmetry hypothesis of C11.
+   The convention-permutation statement C09_convention_output_rows_partial is unchanged. *)
 From Coq Require Import List Arith Bool.
 From GB Require Import Base.Field Base.FNum Base.Tables Model.Shell Model.MomentInt Model.Spherical Model.Assembly Model.Overlap
   Model.DiffOp Model.OneBody Proofs.CoreDiffP Proofs.AssembledP Proofs.AssembledSphP Proofs.AssembledSphOverlapP
